@@ -8,7 +8,7 @@
        name, `default` for the Vec fields, Option fields, unit-variant enums as attribute text, unknown
        attributes / elements / text ignored, duplicate and missing fields;
      - quick-xml's key mapping (local names; xmlns bindings; the xml: prefix);
-     - the serializer: struct name as root tag, field order, `None` written as an EMPTY attribute,
+     - the serializer: struct name as root tag, field order, a `None` attribute left out (skip_serializing_if),
        `<x .../>` for an element without children, attribute escaping (escape_list, DoubleQAttr, Partial);
      - the deserializer's unescape (unescape_with + resolve_xml_entity + parse_number).
    The signature type is a parameter (zvariant::Signature: C06); Run.v instantiates it with C06's model. *)
@@ -175,8 +175,10 @@ Section Doc.
   Inductive node := Node (name : option bytes) (ifaces : list iface) (nodes : list node).
 
   (* ------------------------------------------------------------ Serialize (derive + quick-xml se) *)
-  (* an Option<String>/Option<enum> attribute: quick-xml 0.38 writes the attribute with an EMPTY value for None *)
-  Definition opt_text (o : option bytes) : bytes := match o with Some v => v | None => [] end.
+  (* an Option<String>/Option<enum> attribute carries #[serde(skip_serializing_if = "Option::is_none")]
+     (fix commit 34e4ce52): nothing is written for None *)
+  Definition attr_if_some (k : bytes) (o : option bytes) : list (bytes * bytes) :=
+    match o with Some v => [(k, v)] | None => [] end.
   Definition dir_text (d : direction) : bytes := match d with DIn => B "in" | DOut => B "out" end.
   Definition access_text (a : access) : bytes :=
     match a with ARead => B "read" | AWrite => B "write" | AReadWrite => B "readwrite" end.
@@ -184,8 +186,8 @@ Section Doc.
   Definition t_ann (a : annotation) : xml :=
     Elem (B "annotation") [(B "name", an_name a); (B "value", an_value a)] [].
   Definition t_arg (a : arg) : xml :=
-    Elem (B "arg") [(B "name", opt_text (ar_name a)); (B "type", sig_show (ar_ty a));
-                    (B "direction", opt_text (option_map dir_text (ar_dir a)))]
+    Elem (B "arg") (attr_if_some (B "name") (ar_name a) ++ [(B "type", sig_show (ar_ty a))] ++
+                    attr_if_some (B "direction") (option_map dir_text (ar_dir a)))
          (map t_ann (ar_anns a)).
   Definition t_method (m : method) : xml :=
     Elem (B "method") [(B "name", m_name m)] (map t_arg (m_args m) ++ map t_ann (m_anns m)).
@@ -201,7 +203,7 @@ Section Doc.
   Fixpoint t_node (tag : bytes) (n : node) : xml :=
     match n with
     | Node name ifaces nodes =>
-        Elem tag [(B "name", opt_text name)] (map t_iface ifaces ++ map (t_node (B "node")) nodes)
+        Elem tag (attr_if_some (B "name") name) (map t_iface ifaces ++ map (t_node (B "node")) nodes)
     end.
   Definition to_tree (n : node) : xml := t_node (B "Node") n.
 
